@@ -32,7 +32,7 @@ def portG (u : Url) : Bytes := u.port.getD []
 def pathname (u : Url) : Bytes := u.path.str
 def search (u : Url) : Bytes := match u.query with | none => [] | some q => if q.isEmpty then [] else 0x3f :: q
 def queryG (u : Url) : Bytes := u.query.getD []
-def hash (u : Url) : Bytes := match u.fragment with | none => [] | some f => if f.isEmpty then [] else 0x23 :: f
+def hashG (u : Url) : Bytes := match u.fragment with | none => [] | some f => if f.isEmpty then [] else 0x23 :: f
 def fragmentG (u : Url) : Bytes := u.fragment.getD []
 
 /-- `getDefaultPort` -/
